@@ -44,6 +44,7 @@ type opJ struct {
 	P  string `json:"p,omitempty"` // payload, hex
 	G  uint32 `json:"g,omitempty"` // or: payload = lcgBytes(G, N)
 	N  int    `json:"n,omitempty"`
+	B  bool   `json:"big,omitempty"` // payload = bigBytes(G, N): a 4096-byte block repeated
 	K  int64  `json:"k,omitempty"`
 }
 
@@ -58,6 +59,16 @@ func lcgBytes(seed uint32, n int) []byte {
 		x ^= x >> 17
 		x ^= x << 5
 		b[i] = byte(x)
+	}
+	return b
+}
+
+// bigBytes is pgb of Run_C03.v: the block lcgBytes(seed, 4096) repeated, n bytes.
+func bigBytes(seed uint32, n int) []byte {
+	blk := lcgBytes(seed, 4096)
+	b := make([]byte, n)
+	for i := 0; i < n; i += 4096 {
+		copy(b[i:], blk)
 	}
 	return b
 }
@@ -102,6 +113,9 @@ type crcIn struct {
 
 func (o opJ) payload() []byte {
 	if o.P == "" && o.N > 0 {
+		if o.B {
+			return bigBytes(o.G, o.N)
+		}
 		return lcgBytes(o.G, o.N)
 	}
 	b, _ := hex.DecodeString(o.P)
@@ -113,7 +127,9 @@ func opsCoq(ops []opJ) string {
 	for i, o := range ops {
 		switch o.Op {
 		case "append":
-			if o.P == "" && o.N > 0 {
+			if o.P == "" && o.N > 0 && o.B {
+				items[i] = fmt.Sprintf("Append (pgb %d %d)", o.G, o.N)
+			} else if o.P == "" && o.N > 0 {
 				items[i] = fmt.Sprintf("Append (pg %d %d)", o.G, o.N)
 			} else {
 				items[i] = "Append " + coqLit(o.payload())
@@ -683,6 +699,45 @@ func genHistory(c *hxlib.Ctx, r *rand.Rand, pf profile, forced []opJ) {
 	}
 }
 
+func genHuge(c *hxlib.Ctx, r *rand.Rand) {
+	const mib = 1 << 20
+	big := func(n int) opJ { return opJ{Op: "append", G: r.Uint32(), N: n, B: true} }
+	over := func() int { // payload longer than 2 MiB
+		if c.Scale > 1 && r.Intn(2) == 0 {
+			return 2*mib + 1 + r.Intn(3*mib)
+		}
+		return 2*mib + 1 + r.Intn(64<<10)
+	}
+	hists := [][]opJ{
+		// graceful restart
+		{appendN(r, 1+r.Intn(20)), big(over()), appendN(r, r.Intn(20)), {Op: "sync"}, {Op: "recover"}},
+		// crash with a torn small record behind the big one
+		{appendN(r, r.Intn(20)), big(2*mib + 1), {Op: "sync"}, appendN(r, 9+r.Intn(20)), {Op: "flush"},
+			{Op: "crash", K: int64(1 + r.Intn(16))}, {Op: "recover"}},
+		// exactly 2 MiB (the largest length that is not above the segment limit), crash right after the sync
+		{appendN(r, 1+r.Intn(20)), big(2 * mib), appendN(r, 3), {Op: "sync"}, {Op: "crash"}, {Op: "recover"}},
+	}
+	n := len(hists)
+	if c.Scale > 1 {
+		n += 5
+	}
+	for i := 0; i < n; i++ {
+		if expired() {
+			break
+		}
+		ops := hists[i%len(hists)]
+		if i >= len(hists) { // thorough tier: further sizes, two recoveries
+			ops = []opJ{appendN(r, r.Intn(40)), big(over()), {Op: "shift"}, appendN(r, r.Intn(40)), {Op: "sync"},
+				{Op: "crash"}, {Op: "recover"}, big(mib + r.Intn(mib)), {Op: "flush"},
+				{Op: "crash", K: int64(r.Intn(2 * mib))}, {Op: "recover"}}
+		}
+		obs, final, oracle := runLinear(ops)
+		cs := histCase("huge", ops, obs, final, oracle, c.OracleOnly)
+		weight[cs.Key] = 1 << 30
+		emit(cs)
+	}
+}
+
 func frameOf(p []byte) []byte {
 	f := make([]byte, 8+len(p))
 	f[0], f[1], f[2], f[3] = be32(crc32.Checksum(p, crc32.MakeTable(crc32.Castagnoli)))
@@ -884,32 +939,62 @@ func small(r *rand.Rand) int {
 // cases are queued and handed to hxlib in an order that spreads the heavy ones
 // (long histories) evenly over the Coq shards, which are evaluated in parallel
 var queue []hxlib.Case
+var weight = map[string]int{} // Case.Key -> evaluation weight when it is not the text length
 
 func emit(cs hxlib.Case) { queue = append(queue, cs) }
+
+func caseWeight(cs hxlib.Case) int {
+	if w, ok := weight[cs.Key]; ok {
+		return w
+	}
+	return len(cs.Coq)
+}
 
 func flushQueue(c *hxlib.Ctx, shard int) {
 	// corpus histories (regressions of repaired defects) are reported first
 	var rest []hxlib.Case
+	nCorpus := 0
 	for _, cs := range queue {
 		if cs.Kind == "corpus" {
+			nCorpus++
 			c.Emit(cs)
 		} else {
 			rest = append(rest, cs)
 		}
 	}
 	queue = rest
-	sort.SliceStable(queue, func(i, j int) bool { return len(queue[i].Coq) > len(queue[j].Coq) })
-	nb := (len(queue) + shard - 1) / shard
+	sort.SliceStable(queue, func(i, j int) bool { return caseWeight(queue[i]) > caseWeight(queue[j]) })
+	// buckets = the shards hxlib will cut (it chunks the emitted sequence by `shard`);
+	// the corpus cases already emitted occupy the head of shard 0
+	total := len(queue) + nCorpus
+	nb := (total + shard - 1) / shard
 	if nb == 0 {
 		return
 	}
 	buckets := make([][]hxlib.Case, nb)
-	for i, cs := range queue {
-		k := i % (2 * nb) // snake order
-		if k >= nb {
-			k = 2*nb - 1 - k
+	capOf := func(k int) int {
+		if k == 0 {
+			return shard - nCorpus
+		}
+		return shard
+	}
+	k, dir := 0, 1
+	for _, cs := range queue {
+		for tries := 0; len(buckets[k]) >= capOf(k) && tries < 2*nb; tries++ {
+			k += dir
+			if k == nb {
+				k, dir = nb-1, -1
+			} else if k < 0 {
+				k, dir = 0, 1
+			}
 		}
 		buckets[k] = append(buckets[k], cs)
+		k += dir // snake order
+		if k == nb {
+			k, dir = nb-1, -1
+		} else if k < 0 {
+			k, dir = 0, 1
+		}
 	}
 	for _, b := range buckets {
 		for _, cs := range b {
@@ -1008,6 +1093,10 @@ func gen(c *hxlib.Ctx) {
 		forced = append(forced, opJ{Op: "crash"})
 		genHistory(c, r, long, forced)
 	}
+	// records of megabytes: larger than the default segment limit (2 MiB), one exactly
+	// at it; synced, then recovered gracefully and after a crash.  Observed through
+	// (length, CRC-32C) digests; quick tier stays close to 2 MiB, thorough goes to 5 MiB.
+	genHuge(c, r)
 	lap("bufio")
 	for i := 0; i < c.N(300); i++ {
 		if expired() {
